@@ -21,6 +21,8 @@ ASSUMPTIONS = [
     "complete impulse basis and additivity is re-checked on monomials and a tracer combination",
     "polynomial exactness is compared with relative tolerance 1e-9 (scaled by max|f|/cell^order)",
     "result validity must equal the operand's validity; dtype of validity is C08's business",
+    "value types: float64 everywhere; in unit line additionally one complex128 and one int64 field per configuration, "
+    "judged through linearity against the measured impulse responses (the result's storage type is not constrained)",
 ]
 
 CELLS = [1.0, 0.25, 3e-9]
@@ -52,12 +54,12 @@ def _runs(valid, periodic):
     return runs
 
 
-def _build(L, valid, cellsize, periodic, probes, dims=("x",), bc=None):
+def _build(L, valid, cellsize, periodic, probes, dims=("x",), bc=None, dtype=None):
     mesh = df.Mesh(region=df.Region(p1=(0.5 * cellsize,), p2=((0.5 + L) * cellsize,), dims=dims), n=(L,),
                    bc=bc if bc is not None else (dims[0] if periodic else ""))
     nv = probes.shape[1]
     return df.Field(mesh, nvdim=nv, value=probes, valid=np.array(valid, dtype=bool),
-                    vdims=[f"c{i}" for i in range(nv)], unit="A/m")
+                    vdims=[f"c{i}" for i in range(nv)], unit="A/m", **({} if dtype is None else {"dtype": dtype}))
 
 
 def unit_line(ctx):
@@ -197,6 +199,19 @@ def unit_line(ctx):
             ctx.fail("diff/not-linear", f"probe {c}: D(f)={out[:, c].tolist()} but sum of impulse responses {exp.tolist()}",
                      instance=inst)
             break
+    # (viii) storage type of the values: a complex field a + ib must give D(a) + i D(b), an integer-typed field the
+    # same derivative as the float field with the same (integer) values - "linear in the field values", no truncation
+    comb2 = C.tracer((L,), 2, ctx.seed + 1)[:, 1]
+    for kind, vals, dt, exp in (("complex", (comb + 1j * comb2)[:, None], complex, M @ comb + 1j * (M @ comb2)),
+                                ("int", comb[:, None].astype(int), int, M @ comb)):
+        fk = _build(L, valid, cs, periodic, vals, dtype=dt)
+        ctx.step(1, f"diff of a {kind}-typed field")
+        got = fk.diff("x", order=order, restrict2valid=restrict).array[:, 0]
+        s = (np.abs(M) @ (np.abs(comb) + np.abs(comb2))).max() + 1e-300
+        ctx.check()
+        if np.any(np.abs(got - exp) > rel * s):
+            ctx.fail(f"diff/value-type/{kind}", f"{kind}-typed values {vals[:, 0].tolist()}: D(f)={got.tolist()} expected "
+                     f"{exp.tolist()} (from the impulse responses)", instance=inst)
     # (vi) restrict2valid=False == all-valid pattern (bit for bit), validity kept
     if not restrict and not all(valid):
         g = _build(L, [True] * L, cs, periodic, probes)
